@@ -88,9 +88,14 @@ package ast
 //@ macro func reslogMono() bool { return (forall v *Variable {$resN[v]} :: $resN[v] >= old($resN[v])) && $getN >= old($getN) && $fldN >= old($fldN) && $idxN >= old($idxN) && $selN >= old($selN) && $valN >= old($valN) }
 //@ modset reslog = $getN, $getCtx, $getKey, $getRes, $fldN, $fldNode, $fldName, $fldRes, $idxN, $idxNode, $idxIndex, $idxRes, $selN, $selNode, $selKey, $selRes, $valN, $valNode, $valRes, $resN, $resCtx
 //@ modset actlog = @setlog, @asglog, $exprRes, $varRes, $atomRes, @reslog
+// failures are counted outside every modset: only the functions that list the counters may change them, and an evaluation that
+// returns nil has swallowed no failure of a nested evaluation (C14)
+//@ modset errlog = $atomErrN, $asgErrN
 //@ ghost var $thenFailN int             // then-statements that returned an error
 //@ modset thenlog = $thenN, $thenSeq, $thenFailN
 //@ ghost var $resetAllN int             // calls of WorkingMemory.ResetAll (C13: once per run, in the prologue)
+//@ ghost var $atomErrN int              // ExpressionAtom.Evaluate calls that returned an error
+//@ ghost var $asgErrN int               // Assignment.Execute calls that returned an error
 //@ ghost var $memResetN int             // calls of WorkingMemory.Reset / ResetVariable / ResetAll: only assignments, Forget/Changed and the
 //                                       // engine's prologue may forget remembered values - evaluating an expression or calling a fact
 //                                       // method never does (C13: the frame of every evaluation function excludes this counter)
@@ -244,7 +249,8 @@ package ast
 //@ func (e *Expression) Evaluate(dataContext, memory) (val, err)
 //@   serves C01 C02 C05 C13 C14
 //@   requires $depth >= 0 && treeWF()
-//@   modifies @memo, $exprRes, $varRes, $atomRes, @reslog
+//@   modifies @memo, $exprRes, $varRes, $atomRes, @reslog, $atomErrN
+//@   ensures[C14] noswallow: err == nil ==> $atomErrN == old($atomErrN)
 //@   ensures receiver: e != nil
 //@   ensures rank: forall x *Expression :: $height[x] > $height[e] ==> x.Evaluated == old(x.Evaluated) && x.Value == old(x.Value)
 //@   ghost_entry $depth = $depth + 1
@@ -268,14 +274,16 @@ package ast
 //@   ensures[C01] atomvalue: !old(e.Evaluated) && err == nil && e.ExpressionAtom != nil ==> val == $atomRes[e.ExpressionAtom]
 //@ func (e *WhenScope) Evaluate(dataContext, memory) (val, err)
 //@   requires $depth == 0 && treeWF()
-//@   modifies @memo, $exprRes, $varRes, $atomRes, @reslog
+//@   modifies @memo, $exprRes, $varRes, $atomRes, @reslog, $atomErrN
+//@   ensures[C14] noswallow: err == nil ==> $atomErrN == old($atomErrN)
 
 //@ func (e *RuleEntry) Evaluate(ctx, dataContext, memory) (can, err)
 //@   serves C01 C10 C14 C15
 //@   requires e != nil && ctx != nil
 //@   requires $depth == 0 && !$inAction && treeWF()
 //@   nopanic
-//@   modifies @memo, $exprRes, $varRes, $atomRes, @reslog, @ctxghost
+//@   modifies @memo, $exprRes, $varRes, $atomRes, @reslog, @ctxghost, $atomErrN
+//@   ensures[C14] noswallow: err == nil ==> $atomErrN == old($atomErrN)
 //@   ensures err != nil ==> !can
 //@   ensures old(e.Retracted) ==> !can
 //@   ensures err != nil ==> err_mentions(err, e.RuleName)
@@ -297,7 +305,7 @@ package ast
 //@   ghost_entry $inAction = true
 //@   ghost_exit $inAction = false
 //@   ghost_exit $sinceNilCheck = $sinceNilCheck + 1
-//@   modifies @actions, @thenlog, $memResetN
+//@   modifies @actions, @thenlog, $memResetN, @errlog
 //@   ensures forall re *RuleEntry :: old(re.Retracted) ==> re.Retracted
 //@   ensures forall d Ref :: old($complete[d]) ==> $complete[d]
 //@   panic_ensures forall re *RuleEntry :: old(re.Retracted) ==> re.Retracted
@@ -308,7 +316,7 @@ package ast
 //@   requires e != nil && ctx != nil
 //@   requires $depth == 0 && treeWF()
 //@   nopanic
-//@   modifies @actions, @thenlog, @ctxghost, $memResetN
+//@   modifies @actions, @thenlog, @ctxghost, $memResetN, @errlog
 //@   ensures forall re *RuleEntry :: old(re.Retracted) ==> re.Retracted
 //@   ensures forall d Ref :: old($complete[d]) ==> $complete[d]
 //@   ensures old($cancelled) ==> err != nil && wrapsCtx(err, ctx)
@@ -474,11 +482,13 @@ package ast
 // A-NESTED / monotonicity / rank clauses callers rely on stay ASSUMED (trusted_ensures): they are about what the callees
 // below (variables, selectors, user functions reached through ValueNode.CallFunction) may touch.
 //@ func (e *ExpressionAtom) Evaluate(dataContext, memory) (val, err)
-//@   serves C01 C02 C13
+//@   serves C01 C02 C13 C14
 //@   requires treeWF()
-//@   modifies @actions
+//@   modifies @actions, $atomErrN
+//@   ensures[C14] noswallow: err == nil ==> $atomErrN == old($atomErrN)
 //@   trusted_ensures atomsAboveUntouched(e)
 //@   ghost_exit $atomRes = ite(err == nil, store($atomRes, e, val), $atomRes)
+//@   ghost_exit $atomErrN = ite(err != nil, $atomErrN + 1, $atomErrN)
 //@   trusted_ensures forall re *RuleEntry :: old(re.Retracted) ==> re.Retracted
 //@   trusted_ensures forall d Ref :: old($complete[d]) ==> $complete[d]
 //@   trusted_ensures ($depth > 0 || !$inAction) ==> unchanged("userstate") && unchanged("setlog") && unchanged("asglog")
@@ -617,8 +627,9 @@ package ast
 // the operator the flag names, then exactly one Assign of that value to this statement's variable
 //@ func (e *Assignment) Execute(dataContext, memory) (err)
 //@   serves C04 C01 C02
+//@   ghost_exit $asgErrN = ite(err != nil, $asgErrN + 1, $asgErrN)
 //@   requires $depth == 0 && treeWF()
-//@   modifies @memo, @setlog, $loc, $varRes, $exprRes, $atomRes, @reslog, $asgN, $asgVar, $asgVal, $asgExprSnap, $asgVarSnap, $memResetN
+//@   modifies @memo, @setlog, $loc, $varRes, $exprRes, $atomRes, @reslog, $asgN, $asgVar, $asgVal, $asgExprSnap, $asgVarSnap, $memResetN, $atomErrN
 //@   ensures[C04,C01,C02] assign: err == nil && e.IsAssign ==> $asgN == old($asgN) + 1 && $asgVar == e.Variable && $asgVal == e.Expression.Value
 //@   ensures[C04,C01,C02] plus: err == nil && !e.IsAssign && e.IsPlusAssign ==> $asgN == old($asgN) + 1 && $asgVar == e.Variable && $asgVal == fn_EvaluateAddition_0($asgVarSnap[e.Variable], e.Expression.Value)
 //@   ensures[C04,C01,C02] minus: err == nil && !e.IsAssign && !e.IsPlusAssign && e.IsMinusAssign ==> $asgN == old($asgN) + 1 && $asgVar == e.Variable && $asgVal == fn_EvaluateSubtraction_0($asgVarSnap[e.Variable], e.Expression.Value)
@@ -629,9 +640,12 @@ package ast
 
 // statements of an action list run in textual order; the list stops at the first failing statement
 //@ func (e *ThenExpression) Execute(dataContext, memory) (err)
-//@   serves C04 C10
+//@   serves C04 C10 C14
 //@   requires $depth == 0 && treeWF()
-//@   modifies @actions, $memResetN
+//@   modifies @actions, $memResetN, @errlog
+// C14: a statement that fails - the assignment, or the call statement's evaluation - is reported to the caller
+//@   ensures[C14] assignfails: e.Assignment != nil && $asgErrN > old($asgErrN) ==> err != nil
+//@   ensures[C14] callfails: e.Assignment == nil && e.ExpressionAtom != nil && $atomErrN > old($atomErrN) ==> err != nil
 //@   ghost_entry $thenSeq = store($thenSeq, $thenN, e)
 //@   ghost_entry $thenN = $thenN + 1
 //@   ghost_exit $thenFailN = ite(err != nil, $thenFailN + 1, $thenFailN)
@@ -643,7 +657,7 @@ package ast
 //@ func (e *ThenExpressionList) Execute(dataContext, memory) (err)
 //@   serves C04 C10 C14
 //@   requires $depth == 0 && treeWF()
-//@   modifies @actions, @thenlog, $memResetN
+//@   modifies @actions, @thenlog, $memResetN, @errlog
 //@   ensures[C04,C10] allinorder: err == nil ==> $thenN == old($thenN) + len(e.ThenExpressions) && (forall k int :: 0 <= k && k < len(e.ThenExpressions) ==> $thenSeq[old($thenN) + k] == e.ThenExpressions[k])
 //@   ensures[C04,C14] stopsatfirsterror: err != nil ==> old($thenN) < $thenN && $thenN <= old($thenN) + len(e.ThenExpressions) && (forall k int :: 0 <= k && k < $thenN - old($thenN) ==> $thenSeq[old($thenN) + k] == e.ThenExpressions[k])
 //@   ensures forall re *RuleEntry :: old(re.Retracted) ==> re.Retracted
